@@ -34,8 +34,15 @@ func Catch[T any](finally func(err error) Observable[T]) func(Observable[T]) Obs
 					NewObserverWithContext(
 						destination.NextWithContext,
 						func(ctx context.Context, err error) {
+							var fallback Observable[T]
+
+							if panicked := tryUserCallback(func() { fallback = finally(err) }); panicked != nil {
+								destination.ErrorWithContext(ctx, panicked)
+								return
+							}
+
 							subscriptions.AddUnsubscribable(
-								finally(err).SubscribeWithContext(ctx, destination),
+								fallback.SubscribeWithContext(ctx, destination),
 							)
 						},
 						destination.CompleteWithContext,
@@ -238,7 +245,13 @@ func ThrowIfEmpty[T any](throw func() error) func(Observable[T]) Observable[T] {
 					destination.ErrorWithContext,
 					func(ctx context.Context) {
 						if atomic.LoadUint64(&count) == 0 {
-							destination.ErrorWithContext(ctx, throw())
+							var thrown error
+
+							if panicked := tryUserCallback(func() { thrown = throw() }); panicked != nil {
+								thrown = panicked
+							}
+
+							destination.ErrorWithContext(ctx, thrown)
 						} else {
 							destination.CompleteWithContext(ctx)
 						}
@@ -313,7 +326,13 @@ func DoWhileIWithContext[T any](condition func(ctx context.Context, index int64)
 							destination.ErrorWithContext(ctx, err)
 						},
 						func(ctx context.Context) {
-							currentCtx, shouldContinue = condition(ctx, i)
+							if panicked := tryUserCallback(func() { currentCtx, shouldContinue = condition(ctx, i) }); panicked != nil {
+								lastErr = panicked
+								destination.ErrorWithContext(ctx, panicked)
+
+								return
+							}
+
 							completed = true
 							i++
 						},
